@@ -4,6 +4,7 @@
    Only statements; proofs in Proofs/PermsP.v and Proofs/MpsFormP.v.  Dense-state claims (operators, add,
    compression error, group/split) are checked by the oracle of harness/c09.py, not proved. *)
 From TenpyV Require Import Base.Prelude Model.MpsIndex Model.MpsForm Model.Perms Proofs.MpsFormP Proofs.PermsP.
+From TenpyV Require Import Model.MpsAdd Proofs.MpsAddP.
 Open Scope Z_scope.
 
 (* the while-loop of permute_sites terminates within the stated fuel for EVERY list, ends with a sorted perm list,
@@ -75,6 +76,24 @@ Proof.
   intros n st. split; [apply enlarge_length|]. split; [apply enlarge_nth|apply enlarge_truthful].
 Qed.
 
+(* MPS.add is linear (Model/MpsAdd.v): for two chains of integer matrices A_1..A_L, B_1..B_L of the same length
+   L >= 2 with ANY (also different, non-uniform) bond dimensions, the product of
+     (alpha A_1 , beta B_1) . diag(A_2, B_2) ... diag(A_{L-1}, B_{L-1}) . (A_L ; B_L)
+   is alpha * A_1...A_L + beta * B_1...B_L, entry by entry (the row index ranges over the shared left boundary, the
+   column index over the shared right boundary; both of dimension 1 for bc='finite').  alpha, beta are the
+   prefactors after multiplication with self.norm / other.norm as in the code.  The second statement is the same with
+   the physical legs: for every configuration (p_1..p_L) the amplitude of the sum MPS is the linear combination.
+   Not covered: the canonical_form_finite(renormalize=False) that MPS.add calls afterwards (numerics; oracle of c09.py). *)
+Theorem T09_add_linear : forall (alpha beta : Z) (As Bs : chain),
+  length As = length Bs -> (2 <= length As)%nat ->
+  forall i j, chain_prod (add_chain alpha beta As Bs) i j = alpha * chain_prod As i j + beta * chain_prod Bs i j.
+Proof. exact add_linear. Qed.
+
+Theorem T09_add_linear_tensors : forall (alpha beta : Z) (TA TB : tchain) (ps : list nat),
+  length TA = length TB -> (2 <= length TA)%nat -> length ps = length TA ->
+  forall i j, amplitude (tadd alpha beta TA TB) ps i j = alpha * amplitude TA ps i j + beta * amplitude TB ps i j.
+Proof. exact tadd_linear. Qed.
+
 Example ex_permute :
   let r := permute [2; 0; 3; 1] [(10, true); (11, true); (12, false); (13, true)] in
   p_perm r = [0; 1; 2; 3] /\ map fst (p_arr r) = [11; 13; 10; 12] /\ p_log r = [0%nat; 2%nat; 1%nat] /\ p_sign r = false.
@@ -86,9 +105,21 @@ Proof.
   - apply perm_trans with (0 :: 2 :: 1 :: 3 :: nil); [apply perm_swap|]. apply perm_skip. apply perm_swap.
 Qed.
 
+(* chains with bond dimensions 1-2-2-1 and 1-1-3-1 *)
+Definition mat_of (l : list (list Z)) : mat := fun i j => nth j (nth i l []) 0.
+Definition ex_As : chain := [(2%nat, mat_of [[1; 2]]); (2%nat, mat_of [[0; 1]; [3; -1]]); (1%nat, mat_of [[2]; [5]])].
+Definition ex_Bs : chain := [(1%nat, mat_of [[4]]); (3%nat, mat_of [[1; -2; 3]]); (1%nat, mat_of [[1]; [1]; [2]])].
+Example ex_add :
+  chain_prod ex_As 0%nat 0%nat = 7 /\ chain_prod ex_Bs 0%nat 0%nat = 20 /\
+  chain_prod (add_chain 2 (-3) ex_As ex_Bs) 0%nat 0%nat = -46 /\
+  map fst (add_chain 2 (-3) ex_As ex_Bs) = [3%nat; 5%nat; 1%nat].
+Proof. vm_compute. repeat split; reflexivity. Qed.
+
 Print Assumptions T09_permute_terminates_sorts.
 Print Assumptions T09_permute_arrangement.
 Print Assumptions T09_inversion_involutive.
 Print Assumptions T09_roll_denotation.
 Print Assumptions T09_roll_default_form_counterexample.
 Print Assumptions T09_enlarge_denotation.
+Print Assumptions T09_add_linear.
+Print Assumptions T09_add_linear_tensors.
